@@ -59,6 +59,9 @@ pub(crate) fn schema_definition(p: &mut Parser) {
         }
 
         p.expect(T!['}'], S!['}']);
+    } else {
+        // Unlike in a schema extension, root operation types are not optional
+        p.err("expected Root Operation Type Definitions");
     }
 }
 
